@@ -590,8 +590,11 @@ def run_batch(args):
                                  f"same scenario (fields {suite_dyn.diff_fields(rec, got)[:4]})",
                             replay=dict(kind="load-dyn", document=doc, query=q, impl_output=rec[:300],
                                         model_output=got[:300])))
-            except C.Untranslatable:
-                pass
+            except (C.Untranslatable, C.ImplLayout, C.ImplAction):
+                pass          # a tensor that cannot be read in the documented layout is C09's (LAYOUT, DYN)
+            except Exception as e:
+                if not C.raised_by_implementation(e):
+                    raise     # the implementation raising while being stepped is C10's (DYN, LAYOUT)
         res["sample"] = dict(rule=cases[1][1] if len(cases) > 1 else None,
                              document=cases[1][2] if len(cases) > 1 else cases[0][2])
     except Exception as e:
